@@ -1,9 +1,9 @@
 --------------------------- MODULE BankedMemTrace ---------------------------
 (***************************************************************************)
-(* Is a Top-port event log of ONE run of the real component a behaviour of *)
-(* BankedMem under a given set of deviations?  Port events are logged; the *)
-(* sub-steps inside the component (Dispatch, Expire, Exit, Commit) are not *)
-(* observable through the port and are chosen by TLC (search).             *)
+(* Are recorded runs of the real component behaviours of BankedMem under a *)
+(* given set of deviations?  Port events are logged; the sub-steps inside  *)
+(* the component (Dispatch, Expire, Exit, Commit) are not observable       *)
+(* through the port and are chosen by TLC (search).                        *)
 (*                                                                         *)
 (* Used (a) to bind the implementation-shaped model to the code: every     *)
 (* small replayed run must be a behaviour of BankedMem with the            *)
@@ -11,33 +11,45 @@
 (* rejected: the smallest deviation set under which this module accepts it *)
 (* is the signature of the finding; if none does, the failure is new.      *)
 (*                                                                         *)
-(* Configuration and deviation set are read from the Reset line (line 1);   *)
-(* further runs of the same configuration may follow (Reset).              *)
+(* The log holds many runs, each starting with a Reset line that carries   *)
+(* the configuration and a list `devs` of deviation sets (hypotheses).     *)
+(* There is one initial state per (run, hypothesis); a behaviour that      *)
+(* explains its run up to and including the Quiesce line prints            *)
+(* <<"RUNOK", line of the Reset, index of the hypothesis>>.  Runs and      *)
+(* hypotheses are independent of each other, so TLC may use many workers.  *)
 (***************************************************************************)
-EXTENDS BankedMem, TraceLib, Json
+EXTENDS BankedMem, Json
 
 TraceLog == ndJsonDeserialize("trace.ndjson")
 N == Len(TraceLog)
 RECURSIVE Pow2(_)
 Pow2(n) == IF n = 0 THEN 1 ELSE 2 * Pow2(n - 1)
 
-TNB == TraceLog[1].banks
-TIL == Pow2(TraceLog[1].ilog)
-TRowSz == Pow2(TraceLog[1].rowlog)
-TWidth == TraceLog[1].width
-TTrack == TraceLog[1].track = 1
-TDev == {TraceLog[1].dev[i] : i \in 1..Len(TraceLog[1].dev)}
+VARIABLES l,     \* position in TraceLog
+          run,   \* line of the Reset that started this run
+          hyp    \* index of the hypothesis in that Reset's devs
+tvars == <<vars, l, run, hyp>>
 
-VARIABLES l
-tvars == <<vars, l>>
-
-ASSUME HWInit
+RunStarts == {i \in 1..N : TraceLog[i].e = "Reset"}
+SetOf(s) == {s[i] : i \in 1..Len(s)}
+CfgOf(r, devs) == [nb |-> r.banks, il |-> Pow2(r.ilog), rowsz |-> Pow2(r.rowlog), width |-> r.width,
+                   track |-> (r.track = 1), dev |-> SetOf(devs)]
 
 Ev == TraceLog[l]
-Is(e) == l <= N /\ Ev.e = e /\ l' = l + 1
+Is(e) == l <= N /\ Ev.e = e /\ l' = l + 1 /\ UNCHANGED <<run, hyp>>
 PayloadOf(ev) == [k |-> ev.k, a |-> ev.a, n |-> ev.n, d |-> ev.d, m |-> ev.m]
 
-TInit == Init /\ l = 2 /\ TraceLog[1].e = "Reset"
+TInit ==
+  \E r \in RunStarts : \E h \in 1..Len(TraceLog[r].devs) :
+    /\ run = r /\ hyp = h /\ l = r + 1
+    /\ cfg = CfgOf(TraceLog[r], TraceLog[r].devs[h])
+    /\ topIn = <<>> /\ pending = <<>>
+    /\ delayQ = [b \in 0..(TraceLog[r].banks - 1) |-> <<>>]
+    /\ pipe = [b \in 0..(TraceLog[r].banks - 1) |-> <<>>]
+    /\ post = [b \in 0..(TraceLog[r].banks - 1) |-> <<>>]
+    /\ lastRow = [b \in 0..(TraceLog[r].banks - 1) |-> -1]
+    /\ done = {} /\ rdata = <<>> /\ storage = <<>> /\ topOut = <<>>
+    /\ reqs = <<>> /\ loc = <<>> /\ rsps = <<>> /\ wasHit = {}
 
 TEnvReq == Is("EnvReq") /\ Ev.id = Len(reqs) + 1 /\ EnvReq(PayloadOf(Ev), Ev.ba)
 TDrain  == Is("Drain") /\ topIn # <<>> /\ Head(topIn) = Ev.id /\ Drain
@@ -50,29 +62,17 @@ TTake   == Is("EnvTake") /\ topOut # <<>> /\ Head(topOut).to = Ev.id /\ EnvTake
 TQuiesce == /\ Is("Quiesce") /\ Quiescent /\ Answered = 1..Len(reqs)
             /\ \A i \in 1..Len(Ev.store) :
                  \A j \in 1..Len(Ev.store[i][2]) : Ev.store[i][2][j] = Get(storage, Ev.store[i][1] + j - 1)
+            /\ PrintT(<<"RUNOK", run, hyp>>)
             /\ UNCHANGED vars
-
-\* a further run of the same configuration (runs are grouped by configuration)
-TReset == /\ Is("Reset") /\ Quiescent
-          /\ Ev.banks = TNB /\ Ev.ilog = TraceLog[1].ilog /\ Ev.rowlog = TraceLog[1].rowlog
-          /\ Ev.width = TWidth /\ Ev.track = TraceLog[1].track
-          /\ topIn' = <<>> /\ pending' = <<>>
-          /\ delayQ' = [b \in Banks |-> <<>>] /\ pipe' = [b \in Banks |-> <<>>] /\ post' = [b \in Banks |-> <<>>]
-          /\ lastRow' = [b \in Banks |-> -1]
-          /\ done' = {} /\ rdata' = <<>> /\ storage' = <<>> /\ topOut' = <<>>
-          /\ reqs' = <<>> /\ loc' = <<>> /\ rsps' = <<>> /\ wasHit' = {}
 
 \* unobservable sub-steps
 TInternal ==
-  /\ l <= N /\ UNCHANGED l
+  /\ l <= N /\ TraceLog[l].e # "Reset" /\ UNCHANGED <<l, run, hyp>>
   /\ \/ \E i \in 1..Len(pending), lane \in Lanes : Dispatch(i, lane)
      \/ \E b \in Banks : \/ \E lane \in Lanes : Expire(b, lane)
                          \/ \E k \in 1..Len(pipe[b]) : Exit(b, k)
                          \/ Commit(b)
 
-TNext == TEnvReq \/ TDrain \/ TRsp \/ TTake \/ TQuiesce \/ TReset \/ TInternal
+TNext == TEnvReq \/ TDrain \/ TRsp \/ TTake \/ TQuiesce \/ TInternal
 TSpec == TInit /\ [][TNext]_tvars
-
-Mark == HWNote(l)
-Accepted == HWReport(N)
 =============================================================================
